@@ -13,7 +13,7 @@ PROPS = {
     },
     "C02": {
         "bin": "px_load", "budget_ms": 5000, "wall_cap": {"quick": 600, "thorough": 1800},
-        "rule": "seed files written by the engine's own writers for 13 extensions (3 documents, with/without SAUCE, 0/1/255 comments, compression on/off) plus hand-built streams, fonts (PSF1, PSF2, raw), TheDraw fonts and bundles, 5 palette formats, "
+        "rule": "seed files written by the engine's own writers for 13 extensions (3 documents, with/without SAUCE, 0/1/255 comments, compression on/off; a compressed iCE Draw file whose last record is a run) plus hand-built streams, fonts (PSF1, PSF2, raw), TheDraw fonts and bundles, 5 palette formats, "
                 "bare SAUCE records, clipboard data and IcyDraw files kept as chunk lists; per seed every truncation point, a value menu at every header/tail byte, every 16/32-bit field (LE and BE) of the first 48 bytes set to extremes singly and in pairs, "
                 "IcyDraw chunk payload truncations / byte and field faults / reorderings / renames with the PNG container kept valid; every prefix <= 64 bytes of every seed under 24 extensions; all byte strings of length <= 2 under every extension and extractor; "
                 "a deviation-bounded product of SAUCE tails; control-token streams (depth <= 2) as files of the 8 text formats; odd file names; PSF2 headers whose (headersize, length, charsize) solve the loader's length equation under signed / unsigned / wrapping readings of 14 extreme operand values (cooperating fields); ANSI files with three / four sixel images of which a later one covers two earlier ones; explicit files: fonts of degenerate size loaded by the file itself followed by a sixel image, sparse cursor jumps and line inserts under SAUCE records with extreme heights, IcyDraw layer records with extreme 64 bit lengths; the binary palette constructors and all six palette formats. non-trivial = the loader accepted the input",
@@ -26,7 +26,7 @@ PROPS = {
     "C03": {
         "bin": "px_cost", "parts": [{"bin": "px_cost"}, {"bin": "px_load"}], "budget_ms": 3000, "mem_cap_mb": 1024, "judge_budget": True, "wall_cap": {"quick": 600, "thorough": 1800},
         "rule": "complete control-function table: CSI final 0x40..0x7E x 8 intermediates x parameter tuples of length 0..6 over {1,0,H,W,2^16,10^6,2^31-1} with <=2 (thorough <=3, full for <=4 parameters) "
-                "positions different from 1, in 5 start contexts (fresh, scrollback, top/bottom margins, all margins, and the non-terminal buffer the file loaders use) on 80x25 and 132x60, a second family 'state-setting command then work probe' (every row with <=1 parameter away from its default, resize / margin pairs of extremes, followed by 9 probes whose cost is bounded by the state left behind) in the terminal and the file-loader context; plus explicit shape lists (DCS macro repeat / recursion shapes, macros made of 64 / 4000 / 65535 commands that each do a screen of work (REP IL DL ICH DCH ECH SD SU DECFRA ED DECERA LF CUD RI, raster-only sixel images followed by cursor right / form feed / clear screen, printing in insert mode without autowrap), macros under huge ids followed by the macro-space reports, sixel raster/repeat/colour headers, Avatar repeat and goto byte pairs, "
+                "positions different from 1, in 5 start contexts (fresh, scrollback, top/bottom margins, all margins, and the non-terminal buffer the file loaders use) on 80x25 and 132x60, a second family 'state-setting command then work probe' (every row with <=1 parameter away from its default, resize / margin pairs of extremes, followed by 9 probes whose cost is bounded by the state left behind) in the terminal and the file-loader context; plus explicit shape lists (DCS macro repeat / recursion shapes, macros made of 64 / 4000 / 65535 commands that each do a screen of work (REP IL DL ICH DCH ECH SD SU DECFRA ED DECERA LF CUD RI, raster-only sixel images followed by cursor right / form feed / clear screen, printing in insert mode without autowrap), a macro redefined as 8 copies of itself over 1..=8 rounds, macros under huge ids followed by the macro-space reports, sixel raster/repeat/colour headers, Avatar repeat and goto byte pairs, "
                 "PSF1/PSF2/raw font payload headers, music/OSC/SGR numbers); per case CPU, peak heap and allocation-scaling are measured in the worker; non-trivial = the input made the engine allocate",
         "level_text": "every row of the control-function table (deviation-bounded) and every listed header shape is executed on the real parsers under a counting allocator and a CPU clock; nothing is sampled",
         "level_note": "limits: 0.5 s CPU and 64 MiB peak live heap per input (legitimate work measured at <1 ms / <3 MiB); the file-header part of the property is covered by the C02 fault engine's header-extreme stratum under the same limits",
@@ -37,7 +37,7 @@ PROPS = {
         "bin": "px_text", "budget_ms": 30000, "wall_cap": {"quick": 600, "thorough": 1800},
         "rule": "documents: all rows of width 1..=3 (thorough 4) over an 8-cell alphabet with SAUCE carrying the width (also as 1- and 2-row documents); width 80 rows prefix(<=2 cells).filler.suffix(<=2 cells) with 3 fillers (runs starting at column 0 and ending at 78/79); "
                 "all ordered pairs of a ~28-cell extended alphabet (RGB and xterm colours, bold flag, bright backgrounds, every extended attribute the writer emits, blank variants 0/255, control characters under IcyTerm handling) under 27 (screen preparation x control handling x colour mode) x 5 encoding variants; "
-                "runs of length 1..=8 of every extended cell at four row placements under these vectors (+ repeat sequences without cursor forward); a 9-row core set under every one of the 6912 option vectors; framed rows at SAUCE widths 81 / 100 / 132; framed rows and all ordered pairs of 24 cells under 3 palettes whose colours sit at other positions (entry 0 blue / an RGB colour, DOS colours permuted) x 3 colour modes; cells with a blink flag in ice colour buffers; rows starting with the characters EF BB BF; text rows separated by 1..58 rows of blanks in several attributes (written as cursor movements), bold cells of every dark colour under a palette whose bright entries differ from the DOS ones, a canvas one row taller than its layer; the row families under every vector within 1 (thorough 2) option of the default; heights {1,2,25,60} x widths {1,2,79,80,81,132}. oracle: same character, displayed fg (non-blank glyphs), bg and blink per cell",
+                "runs of length 1..=8 of every extended cell at four row placements under these vectors (+ repeat sequences without cursor forward); a 9-row core set under every one of the 6912 option vectors; framed rows at SAUCE widths 81 / 100 / 132; framed rows and all ordered pairs of 24 cells under 3 palettes whose colours sit at other positions (entry 0 blue / an RGB colour, DOS colours permuted) x 3 colour modes; cells with a blink flag in ice colour buffers; rows starting with the characters EF BB BF; text rows separated by 1..58 rows of blanks in several attributes (written as cursor movements), bold cells of every dark colour under a palette whose bright entries differ from the DOS ones, a canvas one row taller than its layer, blinking blanks inside the trailing run of blanks; the row families under every vector within 1 (thorough 2) option of the default; heights {1,2,25,60} x widths {1,2,79,80,81,132}. oracle: same character, displayed fg (non-blank glyphs), bg and blink per cell",
         "level_text": "every document of the stated small scope and every option vector (6912) on a core set is written by the real ANSI writer, parsed by the real loader and compared cell by cell",
         "level_note": "foreground is not compared on blank glyphs; 0/32/255 compare as equal blanks only when whitespace normalisation is on; rows below the writer's last non-blank row may be missing; UTF-8 'modern terminal' output excluded by the statement",
         "technique": "small-scope exhaustive input x configuration enumeration (deviation-bounded product for the wide option space) with a round-trip oracle",
@@ -95,7 +95,7 @@ PROPS = {
         "bin": "px_icy", "budget_ms": 30000, "mem_cap_mb": 2048, "wall_cap": {"quick": 600, "thorough": 1800},
         "rule": "documents: a two-layer base document varied in every single dimension, every pair of dimensions and every triple of dimensions (quick: the triples with <=100 combinations; thorough: all 255 000 triples) over 19 dimensions - layer count 1..=6, layer size "
                 "{0x0,1x1,2x2,3x1,200x2,1x120,0x2,2x0,200x120}, offsets {-50,-1,0,2,50}, all 32 flag combinations of a normal and of the base layer, 3 modes, colour tag, transparency {0,1,255}, default font page {0,255,300} (with and without a font in that slot), image layers (a picture at offsets (0,0) (1,1) (-1,0) (3,2) (0,-1); role image with its picture removed; a picture and visible cells on the same layer - the one listed known finding), "
-                "titles (empty, Unicode incl. astral, 300 chars, embedded NUL), 5 buffer types, 3 ice modes, 4 palette modes, 4 font modes, palettes of 16/1/17/300 colours, font slots {0}/{0,1}/{0,255,300}/{0: default font edited in place}/{5} only with every cell on page 5/{0: a font declaring 9 pixels width}, a palette with equal neighbouring entries, SAUCE none/plain/with comments and a 1996 date (the date is compared), "
+                "titles (empty, Unicode incl. astral, 300 chars, embedded NUL), 5 buffer types, 3 ice modes, 4 palette modes, 4 font modes, palettes of 16/1/17/300 colours, the first 8 DOS colours and black alone (strict prefixes of the default palette), font slots {0}/{0,1}/{0,255,300}/{0: default font edited in place}/{5} only with every cell on page 5/{0: a font declaring 9 pixels width}, a palette with equal neighbouring entries, SAUCE none/plain/with comments and a 1996 date (the date is compared), "
                 "buffer sizes up to 200x120; cells: every row of length 0..=4 over 8 cell kinds (short, long char, long colour, long font page, invisible, invisible with a character / colours / other flags, transparent fg, transparent bg) in layers of width len, len+1, len+3 (row terminator placement); "
                 "non-trivial = every document (all contain visible cells)",
         "level_text": "every document of the stated small scope is saved by the real Buffer::to_bytes(\"icy\", lossless) and loaded by the real Buffer::from_bytes and compared field by field",
@@ -106,7 +106,7 @@ PROPS = {
     "C10": {
         "bin": "px_unicode", "parts": [{"bin": "px_unicode"}, {"bin": "px_icy"}], "budget_ms": 20000, "wall_cap": {"quick": 600, "thorough": 1800},
         "rule": "complete value domains: fill-rectangle character parameter (quick: all values < 2^22 plus every 2^k, 2^k+-1, surrogate / 0x10FFFF boundaries and the saturation values; thorough: all 2^31 reachable values), "
-                "all 65536 16-bit clipboard character values, PSF2/PSF1/raw glyph tables up to 2^17 glyphs, all 256^2 hex macro byte pairs (macro invoked), IcyDraw long-form cell character fields (surrogate bounds, every 2^k and 2^k+-1 for k=8..31, values beyond U+10FFFF; in a first and in a continuation chunk) and every 1-byte and ~4400 2-byte strings as layer title and font name in hand-built IcyDraw chunk streams behind headers of every buffer type; DECFRA values around the surrogate range / the font table end / U+10FFFF with a 2^17 glyph font loaded by DCS and selected; every Unicode scalar as first and as second character of a hex macro pair; "
+                "all 65536 16-bit clipboard character values, PSF2/PSF1/raw glyph tables up to 2^17 glyphs, all 256^2 hex macro byte pairs (macro invoked), hex macro repeat groups of bytes >= 0x80 that overflow the macro space at even and odd offsets, IcyDraw long-form cell character fields (surrogate bounds, every 2^k and 2^k+-1 for k=8..31, values beyond U+10FFFF; in a first and in a continuation chunk) and every 1-byte and ~4400 2-byte strings as layer title and font name in hand-built IcyDraw chunk streams behind headers of every buffer type; DECFRA values around the surrogate range / the font table end / U+10FFFF with a 2^17 glyph font loaded by DCS and selected; every Unicode scalar as first and as second character of a hex macro pair; "
                 "non-trivial = batch touches the surrogate range / hex digits / a glyph table",
         "level_text": "every value of each input-derived character conversion is pushed through the real code and the stored cells, glyph keys and strings are inspected",
         "level_note": "an invalid char is observed as its raw bits (debug assertions off); reading one is already UB, so a finding means 'materialised', silence means 'not materialised on any explored value'",
@@ -117,7 +117,7 @@ PROPS = {
         "bin": "px_sauce", "budget_ms": 30000, "wall_cap": {"quick": 600, "thorough": 1800},
         "rule": "per writer that appends SAUCE (ans, asc, avt, pcb, bin, xb, tnd, adf, idf, icy): title/author/group of every length 0..=LEN, LEN+1, LEN+5 x 7 content classes (letters, trailing blank, trailing NULs, inner NUL, leading blank, "
                 "high CP437 / control glyphs, all blanks); every comment count 0..=255 (line lengths cycling 0..=64, lines carrying SAUCE00 / COMNT / EOF bytes); every comment line length 0..=64, 65, 70 x 7 classes as only / second line; "
-                "all 8 flag combinations x (no font + the 16 SAUCE font names), also with an attached record that disagrees with the buffer about ice colours; second generation in the same format and cross-format second generation (saved as X, loaded, saved as every other format Y, loaded); every width 1..=1000 the format can hold (bin / idf: every width 1..=510, odd ones included - a width the BinaryText record cannot store has to be refused by the writer); letter spacing / aspect ratio expected from the ANSi, ASCII and BinaryText variants; an empty title / author / group comes back empty; split: engine-written and hand-made contents (empty, 1 byte, 127/128/129 bytes, endings CR LF / EOF / SAUCE00 / COMNT / EOF SAUCE, "
+                "all 8 flag combinations x (no font + the 16 SAUCE font names), also with an attached record that disagrees with the buffer about ice colours; second generation in the same format and cross-format second generation (saved as X, loaded, saved as every other format Y, loaded); every width 1..=1000 the format can hold (bin / idf: every width 1..=510, odd ones included - a width the BinaryText record cannot store has to be refused by the writer); letter spacing / aspect ratio expected from the ANSi, ASCII and BinaryText variants; a loaded file whose font is changed afterwards names the new font in its next record; an empty title / author / group comes back empty; split: engine-written and hand-made contents (empty, 1 byte, 127/128/129 bytes, endings CR LF / EOF / SAUCE00 / COMNT / EOF SAUCE, "
                 "a complete inner SAUCE record; for ans / avt: cursor jumps below the first screen, cursor down 30 lines, scrolling, margins taken from the screen height, erase down / erase in line in colour, insert line, 29 line feeds) x records declaring the height of the content, a taller and a one line picture x comment counts (all 0..=255 on the engine document; {0,1,2,3,254,255} on the others, thorough all) x 2 comment styles appended by a reference SAUCE writer; non-trivial = every loadable case",
         "level_text": "every value of each SAUCE field dimension (lengths, counts, flags, fonts, widths) is written by the real writers and read back by the real loader; every listed content x comment count is split by the real extractor and the pictures compared",
         "level_note": "string fields compare by what a fixed-width padded field can carry (trailing blanks / NULs are padding; a zero-terminated field ends at its first NUL); pictures compare cell by cell, the taller buffer may only have blank rows more",
@@ -127,7 +127,7 @@ PROPS = {
     "C12": {
         "bin": "px_layers", "budget_ms": 30000, "wall_cap": {"quick": 600, "thorough": 1800},
         "rule": "every glyph 0..255 of every built-in font page 0..=42 as the middle cell of 3-cell rows with neighbours from {0, 32, 255, 219, 'A'}, 8 colour contexts (incl. bright, equal fg/bg and an extra palette colour), bold on/off, "
-                "both settings of normalize_whitespaces; every glyph that is blank in its own page between cells of another font page (every page x 3 other pages); all stacks of 2 (thorough 3) layers of the small layer menu (alpha / offset / hidden / chars / attributes layers) above a base layer in 6 states (plain, hidden, locked, moved, alpha, only its first row stored) and below a small floating layer low in the document for the flattening step; a copy of each page font with its blank glyphs edited in place (stale checksum) next to the original; 8 special documents (colours encoded as RGB values incl. RGB black x bold x 5 glyph kinds on an alpha / opaque layer, with / without an alpha layer beneath, with / without a default font page of another cell height, unfilled last row and column); "
+                "both settings of normalize_whitespaces; every glyph that is blank in its own page between cells of another font page (every page x 3 other pages; one row in which the three cells differ in the font page only); all stacks of 2 (thorough 3) layers of the small layer menu (alpha / offset / hidden / chars / attributes layers) above a base layer in 6 states (plain, hidden, locked, moved, alpha, only its first row stored) and below a small floating layer low in the document for the flattening step; a copy of each page font with its blank glyphs edited in place (stale checksum) next to the original; 8 special documents (colours encoded as RGB values incl. RGB black x bold x 5 glyph kinds on an alpha / opaque layer, with / without an alpha layer beneath, with / without a default font page of another cell height, unfilled last row and column); "
                 "oracle: byte-identical render_to_rgba of input and ColorOptimizer::optimize(input), same size. non-trivial = one middle glyph / one stack",
         "level_text": "the complete glyph range of all built-in fonts and the complete small layer-stack scope are pushed through the real optimiser and renderer and compared pixel for pixel",
         "level_note": "the optimiser is a left-to-right fold over the previous cell's attribute, so 3-cell rows determine its behaviour; the primary font slot is set to the page under test so that the renderer draws every glyph row",
@@ -137,7 +137,7 @@ PROPS = {
     "C13": {
         "bin": "px_layers", "budget_ms": 30000, "wall_cap": {"quick": 600, "thorough": 1800},
         "rule": "all stacks of 1 and 2 layers over the rich layer menu (3 sizes x 4 offsets x 3 modes x alpha x visible x up to 15 contents incl. transparent-colour half blocks, visible NUL and invisible cells) and all stacks of 3 (thorough 4) layers over the small menu; "
-                "laws L1-L10 (L1: empty alpha layer of every mode and with its own default font page anywhere; L4: an opaque layer of every mode hides what is beneath; L6: a layer placed with set_offset after a preview offset; L7: row storage - trailing rows not stored / rows stored beyond the height; L8: topmost first among chars / attributes layers; L9: invisible cells of alpha layers that hold a character, colours and other flags; L10: the visible cell of a topmost normal layer is shown, every colour of it that is not the transparent colour; L11: the layers beneath any split point can be replaced by one layer that holds what they display) and the reference compositor R evaluated on every stack at every position of the bounding box + 2 cells; non-trivial = the stack shows at least one visible cell",
+                "laws L1-L10 (L1: empty alpha layer of every mode and with its own default font page anywhere; L4: an opaque layer of every mode hides what is beneath; L6: a layer placed with set_offset after a preview offset; L7: row storage - trailing rows not stored / rows stored beyond the height; L8: topmost first among chars / attributes layers; L9: invisible cells of alpha layers that hold a character, colours and other flags; L10: the visible cell of a topmost normal layer is shown, every colour of it that is not the transparent colour; L11: the layers beneath any split point can be replaced by one layer that holds what they display; L12: every displayed colour is held by some cell of the stack - bold bright and bold dark cells are part of the contents) and the reference compositor R evaluated on every stack at every position of the bounding box + 2 cells; non-trivial = the stack shows at least one visible cell",
         "level_text": "the complete small scope of layer stacks is composited by the real Buffer::get_char and checked against metamorphic stacking laws and a reference compositor transcribed from the statement",
         "level_note": "invisible results compare as invisible only; the reference compositor applies to normal-mode layers without transparent colours, the laws to all stacks",
         "technique": "small-scope exhaustive enumeration with metamorphic oracles and a reference model compared on every case",
@@ -157,7 +157,7 @@ PROPS = {
         "bin": "px_palette", "budget_ms": 20000, "wall_cap": {"quick": 600, "thorough": 1800},
         "rule": "histories: every sequence of <=4 operations over 18 insert/set instances (a colour already present, new colours, indices 0, 5, len, len+2) from 4 start palettes (empty, DOS 16, 300 colours with a duplicate, named colours), "
                 "oracle after every step; every sequence of <=3 (thorough 4) colour-selecting control functions (incl. OSC 4 slot redefinition of slots 1, 16, 17 and 255, the 16 colour SGR codes, and 15 malformed colour requests - no index, empty index, index beyond the table, components above 255, a selector that is neither foreground nor background - which must leave palette and current colours as they are) through the real ANSI parser with a character printed after each (earlier cells must keep their colour); "
-                "files: 5 formats x (n=1: all 343 colours over 7 levels x 8x8 title/description texts (two of them with line breaks followed by what looks like a colour line) x 2 authors x names on/off; n in {0,2,16,17,256,300} x 8 descriptions x names on/off; thorough: all 2^24 colours) ; all 64^3 six-bit colours",
+                "files: 5 formats x (n=1: all 343 colours over 7 levels x 8x8 title/description texts (two of them with line breaks followed by what looks like a colour line) x 2 authors x names on/off; n in {0,2,16,17,256,300} x 8 descriptions x names on/off; thorough: all 2^24 colours) ; all 64^3 six-bit colours; 16 colour palettes of six bit exact colours through xb / adf / idf files (every entry, also the last)",
         "level_text": "all operation histories up to the depth bound and the complete small-scope file menu are executed on the real Palette / parser / exporters / importers and compared with a list-of-RGB reference",
         "level_note": "'returns its existing index' is read as: an index that already resolved to that RGB before the call; Ase format is not implemented in the engine (todo!) and outside the five named formats",
         "technique": "bounded exhaustive exploration of operation histories against a reference model + complete small-scope round-trip enumeration",
@@ -165,10 +165,10 @@ PROPS = {
     },
     "C17": {
         "bin": "px_fonts", "budget_ms": 30000, "wall_cap": {"quick": 600, "thorough": 1800},
-        "rule": "bitmap fonts: every height 1..=32 x (6 (thorough 12) synthetic seeds whose glyph rows take every byte value, a rotation font, constant fonts 0x00/0xFF/0x1B/0x36) + every built-in font page 0..=42 + the default glyphs under another name with a glyph edited in place + fonts whose first glyph starts with the PSF1 / PSF2 magic numbers (3 kinds x every height) + the 16 SAUCE fonts, each through "
+        "rule": "bitmap fonts: every height 1..=32 x (6 (thorough 12) synthetic seeds whose glyph rows take every byte value, a rotation font, constant fonts 0x00/0xFF/0x1B/0x36) + every built-in font page 0..=42 + the default glyphs under another name and under their own name with a glyph edited in place + fonts whose first glyph starts with the PSF1 / PSF2 magic numbers (3 kinds x every height) + the 16 SAUCE fonts, each through "
                 "PSF2 (incl. rewrite stability), raw data via create_8 / from_basic / from_bytes, the DCS font sequence into slots 0/1/42/255 through the ANSI parser and a slot redefined three times within one session, also directly after other string-type sequences (macro, sixel, OSC, APS), XBin (1 and 2 fonts, compressed and not), ADF, IDF and IcyDraw (1 and 2 fonts), and ADF / IDF / XBin documents whose cells all use font page 1 (refused, or the font of that page comes back); "
                 "512-glyph PSF2 fonts of every height; TheDraw: every glyph size 1..=30 x 1..=12 x 3 types x 4 row styles, every number 0..=94 of defined glyphs x 3 placements x 3 types, names of 0..=12 characters, spacing 0..=40, "
-                "94 maximal glyphs (beyond the 16 bit offsets), bundles of 1..=34 mixed fonts x 3 type rotations; non-trivial = every font",
+                "every number 40..=94 of maximal glyphs (glyph data around and beyond the 64 KiB a 16 bit offset reaches), bundles of 1..=34 mixed fonts x 3 type rotations; non-trivial = every font",
         "level_text": "every font of the stated small scope is pushed through every real encoder / decoder pair and compared bit by bit; TheDraw fonts are compared by name, type, spacing, has_char, rendered glyphs and re-serialised bytes",
         "level_note": "raw data that begins with a PSF magic number is ambiguous by construction and is not fed to BitFont::from_bytes; TheDraw glyph tables are private, glyph data is observed by rendering every glyph and by re-serialising",
         "technique": "small-scope exhaustive input enumeration over font geometry and glyph-table layouts with round-trip oracles on the implementation",
